@@ -8,8 +8,7 @@ adds value only where data flows through branches.  What is decided here, and it
    syntax note mentions, replace a coded value by ANY other code of the node's code list (symbolic index), duplicate a loop instance
    that the map allows to repeat - where "optional", "code list", "repeat limit" are read from the REAL map node each segment matched.
    Every variant must be accepted: verdict true, no AK3/IK3, every set and group acknowledged A.
- * map selection: the index returns a map for every (version, functional id, release) triple it lists (shared with C16) and the
-   selected file loads.
+ * map selection (the index returns a loadable map for every triple it lists) is decided in C16.
 Element-level acceptance ("a value that meets the definition produces no error") is decided for symbolic definitions and values in
 C15, syntax notes in C14, envelopes in C04.  Real code executed symbolically (CrossHair+z3): the whole x12n_document pipeline.
 """
@@ -211,21 +210,20 @@ def _ob(name, fn, tier, timeout, kind='ch', **params):
     return {'name': name, 'fn': fn, 'kind': kind, 'tier': tier, 'timeout': timeout, 'params': params}
 
 
-OBLIGATIONS = [_ob('index_selects_loadable_map', 'h_index_selects_loadable', 'thorough', 7200),
-               _ob('group_sequence_835_837', 'h_group_sequence', 'quick', 3600, ngd=2),
+OBLIGATIONS = [_ob('group_sequence_835_837', 'h_group_sequence', 'quick', 3600, ngd=2),
                _ob('group_sequence_835_837_834', 'h_group_sequence', 'thorough', 14400, ngd=3)]
-for doc, tier in (('repeat_init_segment', 'quick'), ('834_lui_id', 'thorough'), ('834_lui_id_5010', 'thorough'), ('835id', 'thorough'), ('simple_837p', 'thorough')):
+for doc, tier in (('repeat_init_segment', 'quick'), ('834_lui_id', 'thorough'), ('834_lui_id_5010', 'thorough')):
     OBLIGATIONS += [
         _ob('drop_optional_%s' % doc, 'h_drop_optional', tier, 7200, doc=doc),
         _ob('blank_optional_element_%s' % doc, 'h_blank_optional_element', tier, 7200, doc=doc),
-        _ob('other_code_%s' % doc, 'h_other_code', tier, 7200, doc=doc),
+        _ob('other_code_%s' % doc, 'h_other_code', tier, 7200, doc=doc, ncode=(5 if tier == 'quick' else 2)),
         _ob('repeat_loop_%s' % doc, 'h_repeat_loop', tier, 7200, doc=doc),
     ]
 
 LEVEL = 'other'
 EXPLANATION = __doc__
 BOUNDS = ('quick: the 19-segment 270 document (repeat_init_segment): every pair of optional segments dropped, every optional element (positions 1..8) blanked, every coded element '
-          '(positions 2..8) set to each of up to 12 of its listed codes, every repeatable loop instance duplicated once; one interchange of three groups (835 first, then 835 / 837P in every order); thorough: the same for 834 4010 / 5010, 835, 837P, and index selection + load of every entry.')
+          '(positions 2..8) set to each of up to 12 of its listed codes, every repeatable loop instance duplicated once; one interchange of three groups (835 first, then 835 / 837P in every order); thorough: the same for the 834 4010 / 5010 documents (two codes per coded element) and group sequences including an 834 group; index selection and loading of every indexed map is decided by C16.')
 OUTSIDE = ('documents synthesised from a map from scratch (a value synthesiser for every implementation-guide rule would be a model of its own); maps without a valid test document '
            '(271, 276/277, 278, 820, 830, 837I/D variants ...); combinations of more than one variation; HL / LX bearing loops for duplication.')
 ASSUMPTIONS = [
